@@ -533,6 +533,26 @@ func (e *enc) runDefers(st *State) {
 
 func (e *enc) builtin(st *State, b *ssa.Builtin, c *ssa.CallCommon, ins ssa.Instruction, pos token.Pos) []string {
 	arg := func(i int) string { return e.val(c.Args[i]) }
+	// call-site assertions may be attached to append / copy / delete ("call append#k assert ...")
+	if e.c != nil && (b.Name() == "append" || b.Name() == "copy" || b.Name() == "delete") {
+		site := fmt.Sprintf("%s#%d", b.Name(), e.siteOrdinal(ins, b.Name()))
+		for _, cc := range e.c.calls[site] {
+			if cc.kind != "assert" {
+				continue
+			}
+			env := e.envFor(st, e.entry)
+			for i, a := range c.Args {
+				if ts := e.valN(a); len(ts) == 1 {
+					env.bound[fmt.Sprintf("$%d", i)] = SVal{t: ts[0], typ: a.Type(), sort: sortOf(a.Type())}
+				}
+			}
+			key := cc.label
+			if key == "" {
+				key = "assert"
+			}
+			e.oblige("callsite", fmt.Sprintf("%s:%s", site, key), e.evalBool(cc.expr, env, "call-site assertion "+site), pos, cc.text)
+		}
+	}
 	switch b.Name() {
 	case "len":
 		t := c.Args[0].Type().Underlying()
@@ -719,7 +739,7 @@ func (e *enc) siteOrdinal(ins ssa.Instruction, short string) int {
 				if cc == nil {
 					continue
 				}
-				if _, isB := stripVal(cc.Value).(*ssa.Builtin); isB {
+				if bi, isB := stripVal(cc.Value).(*ssa.Builtin); isB && bi.Name() != "append" && bi.Name() != "copy" && bi.Name() != "delete" {
 					continue
 				}
 				n := e.calleeShort(cc)
